@@ -241,6 +241,38 @@ def replay(rec: Dict[str, Any]) -> List[Tuple[str, Dict[str, Any], str]]:
                 if disc:
                     return [(f"{name}:{disc}|{ename}|{feats}", {"query": text, "doc": show(docs[0]["doc"]), "environment": ename, "sync": s_kind, "async": a_kind,
                              "tagged": c10.strip(rec)}, disc)]
+        # a file-like document that the caller closes once the call has returned: the sync call has read it by then, and so has the async one
+        if isinstance(untag(docs[0]["doc"]), (list, dict)):
+            import io
+
+            raw0 = json.dumps(untag(docs[0]["doc"]))
+            kw = {"filter_context": untag(ctx_t)} if ctx_t else {}
+
+            def sync_closed() -> Any:
+                f = io.StringIO(raw0)
+                it = path.finditer(f, **kw)
+                f.close()
+                return [m.obj for m in it]
+
+            def async_closed() -> Any:
+                f = io.StringIO(raw0)
+                ait = drive(path.finditer_async(f, **kw))
+                f.close()
+
+                async def rest() -> Any:
+                    return [m.obj async for m in ait]
+
+                return drive(rest())
+
+            s_kind, s_vals = observe(sync_closed)
+            a_kind, a_vals = observe(async_closed)
+            disc = ""
+            if a_kind.split(":")[0] != s_kind.split(":")[0]:
+                disc = f"sync-{s_kind.split(':')[0]}-async-{a_kind.split(':')[0]}"
+            elif s_kind == "ok" and [canon(tag(v)) for v in a_vals] != [canon(tag(v)) for v in s_vals]:
+                disc = "different-values"
+            if disc:
+                return [(f"finditer_async:{disc}|file-closed-after-the-call|{feats}", {"query": text, "sync": s_kind, "async": a_kind, "tagged": c10.strip(rec)}, disc)]
         # the document as JSON text, and as the JSON text of a string that itself holds JSON text (a string document)
         for form in ("json-text", "json-string-of-json-text"):
             raw = json.dumps(untag(docs[0]["doc"]))
